@@ -450,7 +450,7 @@ def rewrite_map_or(code, stats):
         if not cm:
             raise ExtractError("R4: map_or closure form not supported: %s" % clo[:40])
         var, body = cm.group(1), cm.group(2).strip()
-        if body.startswith("{") and match_close(body, 0) == len(body) - 1:
+        if body.startswith("{") and match_close(body, 0) == len(body) - 1 and ";" not in body:
             body = body[1:-1].strip()
         if body.endswith(","):
             body = body[:-1]
@@ -530,6 +530,7 @@ def rewrite_iter_adapters(code, stats):
       R9b  E.into_iter()[.filter(|x| C)].for_each(|y| B) ->  `for y in it_: E { if C { B } }`
       R9c  E.retain(|x| C)                              ->  index loop removing the elements failing C
       R9d  E.iter().all(|x| C)                          ->  short-circuit index loop yielding a bool
+      R9e  E.iter().filter(|x| C).count()               ->  counting index loop
     Assumed std contract: the adapters visit the elements once, in order."""
     flat = lambda e: re.sub(r"\s+", "", e)
     for _ in range(20):
@@ -576,14 +577,27 @@ def rewrite_iter_adapters(code, stats):
             code = code[:rs] + new + code[cl + 1:]
             stats["R9"] = stats.get("R9", 0) + 1
             continue
+        m = re.search(r"\.\s*iter\(\)\s*\.\s*filter\s*\(\s*(?=\|)", code)
+        if m:
+            rs = _receiver_start(code, m.start())
+            recv = flat(code[rs:m.start()])
+            var, body, cl = _closure_at(code, m.end())
+            m2 = re.compile(r"\s*\.\s*count\s*\(\s*\)").match(code, cl + 1)
+            if not m2:
+                raise ExtractError("R9e: iter().filter(..) not followed by count()")
+            new = ("({ let mut n_ = 0usize; let mut i_ = 0usize; while i_ < %s.len() { let %s = &%s[i_]; "
+                   "if %s { n_ += 1; } i_ += 1; } n_ })" % (recv, var, recv, body))
+            code = code[:rs] + new + code[m2.end():]
+            stats["R9"] = stats.get("R9", 0) + 1
+            continue
         m = re.search(r"\.\s*iter\(\)\s*\.\s*all\s*\(\s*(?=\|)", code)
         if m:
             rs = _receiver_start(code, m.start())
             recv = flat(code[rs:m.start()])
             var, body, cl = _closure_at(code, m.end())
             body = rewrite_map_or(body, stats)
-            new = ("{ let mut all_ = true; let mut i_ = 0usize; while all_ && i_ < %s.len() { let %s = &%s[i_]; "
-                   "if !(%s) { all_ = false; } i_ += 1; } all_ }" % (recv, var, recv, body))
+            new = ("({ let mut all_ = true; let mut i_ = 0usize; while all_ && i_ < %s.len() { let %s = &%s[i_]; "
+                   "if !(%s) { all_ = false; } i_ += 1; } all_ })" % (recv, var, recv, body))
             code = code[:rs] + new + code[cl + 1:]
             stats["R9"] = stats.get("R9", 0) + 1
             continue
@@ -1052,8 +1066,16 @@ def extract_impl(path, header_lit, macro, args, handle, spec, stats, canary):
             sig = re.sub(r"\(\s*(mut\s+)?self\s*([,)])", r"(self_: %s\2" % selfty.replace("\\", "\\\\"), sig, count=1)
             sig = re.sub(r"\(\s*&\s*mut\s+self\s*([,)])", r"(self_: &mut %s\1" % selfty.replace("\\", "\\\\"), sig, count=1)
             sig = re.sub(r"\bfn\s+%s\b" % fname, "fn silent__%s__%s" % (re.sub(r"\W+", "_", selfty)[:40], fname), sig)
-            w2 = re.sub(r"\bObserver\s*<", muted + "<", where)
-            g2 = re.sub(r"\bObserver\s*<", muted + "<", gen)
+            if "==>" in muted:
+                a_, b_ = [x.strip() for x in muted.split("==>", 1)]
+                rx_ = re.compile(ws_insensitive_regex(a_))
+                if not (rx_.search(where) or rx_.search(gen)):
+                    raise ExtractError("@@silent: bound `%s` not found" % a_)
+                w2 = rx_.sub(b_, where)
+                g2 = rx_.sub(b_, gen)
+            else:
+                w2 = re.sub(r"\bObserver\s*<", muted + "<", where)
+                g2 = re.sub(r"\bObserver\s*<", muted + "<", gen)
             # generics: merge impl generics into the fn
             if re.search(r"fn\s+\w+\s*<", sig):
                 sig = re.sub(r"(fn\s+\w+\s*)<", r"\1<%s, " % g2, sig, count=1)
@@ -1258,7 +1280,7 @@ def generate(template_path, variant, canary=False):
                     spec.rewrites.append((fname, old.strip(), new.strip()))
                     i += 1
                 elif t[0] == "@@silent":
-                    spec.silent.append((t[1], t[2] if len(t) > 2 else "MutedObserver"))
+                    spec.silent.append((t[1], l.split(None, 2)[2].strip() if len(t) > 2 else "MutedObserver"))
                     i += 1
                 elif t[0] == "@@trusted":
                     spec.trusted.add(t[1])
